@@ -11,7 +11,7 @@ from pbt.harness import Session, algo_label
 
 PROP = "C09"
 RULE = (
-    "subcheck 'schedule' (reward-independent, enumerated EXHAUSTIVELY over n in 100..1200 (thorough ..5000) x a grid of 24 (60) "
+    "subcheck 'schedule' (reward-independent, enumerated EXHAUSTIVELY over n in 100..2000 (thorough ..5000) x a grid of 32 (60) "
     "rho_max values x base name in {T_HOO, HCT, VHCT}): GPO is driven with an O(1) stub learner carrying the base class name; "
     "subcheck 'real': GPO over recording subclasses of the real T_HOO/HCT/VHCT and PCT/VPCT (module attribute replaced) x partition x "
     "box x reward law, drawn by Hypothesis. Oracle (reference N = ceil(0.5 Dmax ln((n/2)/ln(n/2))), L = floor(n/2N)): learner i = 1..N "
@@ -222,7 +222,7 @@ def rho_grid(k):
 
 
 def stub_cases(tier):
-    nmax, k = (1200, 24) if tier == "quick" else (5000, 60)
+    nmax, k = (2000, 32) if tier == "quick" else (5000, 60)
     out = []
     for n in range(100, nmax + 1):
         for j, rm in enumerate(rho_grid(k)):
@@ -255,8 +255,8 @@ def run_shard(ctx):
     cases = stub_cases(ctx.tier)
     ctx.enumerate("schedule", cases, check_case,
                   exhaustive_note="GPO schedule with stub learners: all n in 100..%d x %d rho_max values (%d cases), each run for n rounds"
-                  % (1200 if quick else 5000, 24 if quick else 60, len(cases)))
+                  % (2000 if quick else 5000, 32 if quick else 60, len(cases)))
     ctx.drive("real", gen.run_case(names=["GPO", "GPO", "PCT", "VPCT"], gpo_ok_only=True, n_range=(100, 400) if quick else (100, 2000),
                                    script_prob=0.2, full_T_prob=0.6, T_min=20,
                                    laws=["noise", "peak", "negative", "ties", "const", "large", "bump"]),
-              check_case, ctx.budget(640, 10000))
+              check_case, ctx.budget(2000, 16000))
